@@ -5,7 +5,11 @@ CONSTANTS
   EofWithData = TRUE
   ShapesA <- LocalShapes
   ShapesB <- @@SHAPESB@@
-  DevDrainDeadline = FALSE
+  DevDeadlineAt = "none"
+  DevDeadlineHits = {"read"}
+  Monitor = FALSE
+  IdleMax = 2
+  DevMonNoFeed = FALSE
   DevCloseWriterFallback = FALSE
   Emit = @@EMIT@@
   Classes = {1}
@@ -26,9 +30,10 @@ CONSTANTS
   DevNoInnerFlush = FALSE
   SockQueue = FALSE
   DevQueueRefs = FALSE
+  DevSockDeadline = FALSE
   DevDropOnClose = FALSE
 INIT BInit
 NEXT BNext
 VIEW bview
-INVARIANTS BTypeOK BPipe BComplete BReverseKeepsFlowing BNoSpuriousEnd BNoDeadline
+INVARIANTS BTypeOK BPipe BComplete BReverseKeepsFlowing BNoSpuriousEnd BNoSpuriousWriteEnd BNoDeadline BMonitorOnlyIdle
 CHECK_DEADLOCK FALSE
